@@ -411,6 +411,85 @@ def run(ctx: Ctx):
                       case, expected="False iff some entry of some working variable is nan/inf",
                       observed=got, oracle="vars_finite")
 
+    # (d) statistics options
+    stat_option_cases(ctx)
+
+
+def stat_option_cases(ctx):
+    """(d) statistics options: a user statistics function + fields handed over in ONE dict that is re-used for several
+    solvers (a parameter sweep), with default options in between.  Every solver must record one row per performed
+    iteration whose fields are the values of ITS statistics function after that iteration, and constructing a solver
+    must not change the caller's dict."""
+    import copy
+    from scico.optimize._common import Optimizer
+    from scico import functional, linop, loss
+    import scico.numpy as snp
+    from scico.optimize import PGM, LinearizedADMM
+
+    class Fake(Optimizer):
+        def __init__(s, w0=0, **kw):
+            s.w = w0
+            super().__init__(**kw)
+
+        def step(s):
+            s.w += 2
+
+        def _working_vars_finite(s):
+            return True
+
+        def _itstat_extra_fields(s):
+            return {"W": "%d"}, ["w"]
+
+        def minimizer(s):
+            return s.w
+
+    def real(kind, **kw):
+        x0 = snp.ones((3,))
+        f = loss.SquaredL2Loss(y=x0, A=linop.Identity((3,)))
+        g = functional.L1Norm()
+        if kind == "PGM":
+            return PGM(f=f, g=g, L0=2.0, x0=x0, **kw)
+        return LinearizedADMM(f=g, g=g, C=linop.Identity((3,)), mu=0.5, nu=1.0, x0=x0, **kw)
+
+    for t in range(ctx.n(12, 120)):
+        nfield = ctx.rng.choice([1, 2, 3, 5])
+        coef = [ctx.rng.randint(-3, 3) or 1 for _ in range(nfield)]
+        fields = {f"F{j}": "%d" for j in range(nfield)}
+        func = (lambda cf: (lambda o: tuple(c * o.itnum + j for j, c in enumerate(cf))))(coef)
+        opts = {"fields": fields, "itstat_func": func}
+        if ctx.rng.random() < 0.5:
+            opts["display"] = False
+        before = copy.copy(opts)
+        kinds = [ctx.rng.choice(["Fake", "Fake", "PGM", "LADMM"]) for _ in range(ctx.rng.choice([2, 3, 4]))]
+        case = {"unit": "itstat_options", "coef": coef, "solvers": kinds, "shared_dict": True}
+        ctx.count("statistics-options", case)
+        for si, kind in enumerate(kinds):
+            mi = ctx.rng.choice([1, 2, 3])
+            use_opts = not (si == 1 and ctx.rng.random() < 0.3)      # sometimes a default-options solver in between
+            kw = dict(maxiter=mi, **({"itstat_options": opts} if use_opts else {}))
+            try:
+                o = Fake(**kw) if kind == "Fake" else real(kind, **kw)
+                o.solve()
+                rows = [tuple(int(v) for v in r) for r in o.itstat_object.history()] if use_opts else None
+                names = list(o.itstat_object.history()[0]._fields) if use_opts and o.itstat_object.history() else None
+            except Exception as ex:     # noqa: BLE001
+                ctx.violation("Optimizer.itstat_options", "building / running a solver with valid statistics options fails",
+                              {**case, "solver_index": si, "maxiter": mi}, observed=f"{type(ex).__name__}: {str(ex)[:200]}",
+                              expected="one record per iteration", oracle="documented statistics options")
+                break
+            if use_opts:
+                exp = [tuple(c * k + j for j, c in enumerate(coef)) for k in range(mi)]
+                if rows != exp or names != list(fields):
+                    ctx.violation("Optimizer.itstat_options", "recorded statistics are not the values of the user's statistics "
+                                  "function after each iteration", {**case, "solver_index": si, "maxiter": mi},
+                                  expected=repr(exp), observed=repr(rows)[:300], oracle="documented statistics options")
+                    break
+            if set(opts) != set(before) or any(opts[k] is not before[k] for k in before):
+                ctx.violation("Optimizer.itstat_options", "constructing a solver changed the caller's itstat_options dict",
+                              {**case, "solver_index": si}, expected=sorted(before), observed=sorted(opts),
+                              oracle="arguments are not modified")
+                break
+
 
 def classify_drv(c, obs):
     n_pos = [max(x[2], 0) for x in c["calls"]]
@@ -450,4 +529,10 @@ def replay(ctx: Ctx, rec):
             setvar(o, c["var"], v2)
         got = bool(o._working_vars_finite())
         return got == (c["var"] is None)
+    if unit == "Optimizer.itstat_options":
+        # the stream is cheap and deterministic in the seed: re-run it and report whether it is clean
+        c2 = Ctx(ctx.pid, ctx.tier, rec.get("seed", ctx.seed))
+        c2.known = []
+        stat_option_cases(c2)
+        return not c2.violations
     raise SystemExit("unknown unit")
